@@ -465,3 +465,33 @@ def reaching_def_nodes(cfgnode, name, limit=600):
             return None
         stack.extend(preds)
     return found
+
+
+def rule_mixed_membership(ctx, typer, funcs, rule):
+    """`x in c` where c is a sequence of names at some call sites and a plain string at others (typically `("name")`
+    written for `("name",)`): there the test silently becomes a substring test"""
+    n = 0
+    for f in funcs:
+        if f.is_lambda:
+            continue
+        ft = typer.results.get(f) or typer.analyze(f)
+        for node in ast.walk(f.node):
+            if not (isinstance(node, ast.Compare) and len(node.ops) == 1 and isinstance(node.ops[0], (ast.In, ast.NotIn))):
+                continue
+            c = node.comparators[0]
+            t = ft.type_of(c) if ft is not None else None
+            if (t is None or not t) and isinstance(c, ast.Name) and c.id in f.params:
+                t = typer.param_override.get((f.where, c.id))
+                stores = [x for x in ast.walk(f.node) if isinstance(x, ast.Name) and x.id == c.id and isinstance(x.ctx, ast.Store)]
+                if stores:
+                    t = None
+            if t is None or "top" in t:
+                continue
+            n += 1
+            has_seq = any(isinstance(a, tuple) and a[0] in ("seq", "tup", "set") for a in t)
+            if "str" in t and has_seq:
+                ctx.viol(rule, f, node, "`%s`: the container is a sequence at some call sites and a plain string at others (a one-element "
+                         "tuple written without its comma?) - there the test is a substring test, so unrelated names match" % norm(node))
+            else:
+                ctx.inst(rule, f, node, "membership in a container of one kind")
+    return n
